@@ -1025,3 +1025,55 @@ func (e *Engine) SweepGlobals(prop string, pkgPaths []string) {
 	}
 	e.notes = appendUnique(e.notes, fmt.Sprintf("confinement sweep over %s: %d uses of package-level variables in functions that are not under contract, all of variables that are never assigned after initialisation", strings.Join(pkgPaths, ", "), seen))
 }
+
+// SweepStyleWriters (C05): the style-attribute path writes into one strings.Builder through a handful of helpers in
+// runtime/styleattribute.go. The helpers that write names and values of declarations are under contract; a helper
+// that is neither under contract nor one of the four that are outside the property by design (plain strings are
+// CSS-string-escaped as a whole, SafeCSS is trusted by type, the dispatcher and the two reflection walkers only hand
+// values on) would write to the attribute unseen - it is a failed obligation.
+func (e *Engine) SweepStyleWriters(prop string) {
+	path := modulePath + "/runtime"
+	pkg := e.pkgs[path]
+	if pkg == nil {
+		return
+	}
+	under := map[string]bool{}
+	for _, c := range e.ContractsFor(prop) {
+		if c.Pkg == path {
+			under[c.Name] = true
+		}
+	}
+	outside := map[string]string{
+		"sanitizeStyleAttributeValue": "dispatcher", "processSafeCSS": "SafeCSS is trusted by type", "processString": "plain strings are escaped as a whole (outside the property)",
+		"handleFuncWithReflection": "hands the function's result to the dispatcher", "handleSliceWithReflection": "hands the elements to the dispatcher",
+	}
+	n := 0
+	for _, file := range pkg.Syntax {
+		if !strings.HasSuffix(pkg.Fset.Position(file.Pos()).Filename, "styleattribute.go") {
+			continue
+		}
+		for _, d := range file.Decls {
+			fd, ok := d.(*ast.FuncDecl)
+			if !ok || fd.Body == nil || fd.Recv != nil {
+				continue
+			}
+			takesBuilder := false
+			for _, p := range fd.Type.Params.List {
+				if t := pkg.TypesInfo.TypeOf(p.Type); t != nil && types.TypeString(t, nil) == "*strings.Builder" {
+					takesBuilder = true
+				}
+			}
+			if !takesBuilder {
+				continue
+			}
+			n++
+			if under[fd.Name.Name] || outside[fd.Name.Name] != "" {
+				continue
+			}
+			p := pkg.Fset.Position(fd.Pos())
+			e.addObl(&Obligation{Name: fmt.Sprintf("runtime.%s#style-writer", fd.Name.Name), Kind: "site", Func: "runtime." + fd.Name.Name, Goal: False, Verdict: "sat", Solver: "engine",
+				Pos: fmt.Sprintf("%s:%d", p.Filename, p.Line), Note: "runtime." + fd.Name.Name + " writes into the style attribute's builder but is not under contract: that the names and values it writes come from the sanitisers is not proved"})
+		}
+	}
+	e.notes = appendUnique(e.notes, fmt.Sprintf("style writers: %d functions of runtime/styleattribute.go take the builder; each is under contract or one of the 5 that only dispatch / handle values outside the property", n))
+}
